@@ -1008,3 +1008,6 @@ v("d81-outer-not-mapped-to-full", "C16", ER, '    if join_str == "OUTER":\n     
 v("d82-remove-forgets-before-drop", "C20", "db_space.py",
   "        self.db_handle.drop_table(key)  # forget the entry only once the table is gone\n        del self.description_map[key]\n",
   "        del self.description_map[key]\n        self.db_handle.drop_table(key)\n")
+
+v("d83-polars-full-join-keys-not-folded", "C16", PM,
+  "                        if (ka == kb) and ((ka + \"_da_right_tmp\") in joined_columns)\n", "                        if False\n")
